@@ -10,6 +10,7 @@ import NumqiProofs.Lie
 import NumqiProofs.LieReal
 import NumqiProofs.LieAngMom
 import NumqiProofs.LieIrrep
+import NumqiProofs.LieIrrepReal
 
 set_option linter.unusedSectionVars false
 
@@ -99,6 +100,18 @@ theorem angleToSU2_det {cb sb : R} {p m : Cx R} (hb : cb * cb + sb * sb = 1)
   have : nrm2 (Cx.smul cb p.conj) (-(Cx.smul sb m.conj)) = 1 := by
     simp [nrm2]; linear_combination (cb * cb) * hp + (sb * sb) * hm + hb
   rw [this]; rfl
+
+/-- the entries of `angle_to_su2` form a unit quaternion -/
+theorem angleToSU2cs_nrm2 {cb sb : R} {p m : Cx R} (hb : cb * cb + sb * sb = 1)
+    (hp : p.re * p.re + p.im * p.im = 1) (hm : m.re * m.re + m.im * m.im = 1) :
+    nrm2 (angleToSU2cs cb sb p m 0 0) (angleToSU2cs cb sb p m 0 1) = 1 := by
+  simp [nrm2, angleToSU2cs]; linear_combination (cb * cb) * hp + (sb * sb) * hm + hb
+
+/-- value of the 4π-branch test of `su2_to_angle` on `U = angle_to_su2 α β γ` itself: `cos(β/2) + sin(β/2)` -/
+theorem branch_test_value {cb sb : R} {p m : Cx R}
+    (hp : p.re * p.re + p.im * p.im = 1) (hm : m.re * m.re + m.im * m.im = 1) :
+    (p * angleToSU2cs cb sb p m 0 0 - m * angleToSU2cs cb sb p m 0 1).re = cb + sb := by
+  simp [angleToSU2cs]; linear_combination cb * hp + sb * hm
 
 /-! ### SU(2) → SO(3) -/
 
@@ -381,6 +394,172 @@ theorem su2_roundtrip_partial (a b : Cx ℝ) (hu : nrm2 a b = 1) (eps : ℝ) (h0
   show angleToSO3cs _ _ _ _ (Real.cos _) (Real.sin _) = angleToSO3cs _ _ _ _ (Real.cos _) (Real.sin _)
   rw [hc, hs]
 
+/-! ### the sign: the 4π-branch test of `su2_to_angle` selects the γ branch with `angle_to_su2 (…) = U` exactly -/
+
+private theorem su2ToSO3_one : M3 (su2ToSO3 (1/2 : ℝ) 1 0) = 1 := by
+  rw [su2ToSO3_eq (by norm_num)]
+  apply mat3_ext <;> simp
+
+/-- **kernel of the covering**: a unit quaternion with trivial rotation is `±1` -/
+private theorem su2_kernel (a b : Cx ℝ) (hu : nrm2 a b = 1) (h : M3 (su2ToSO3 (1/2) a b) = 1) :
+    ((a.re = 1 ∨ a.re = -1) ∧ a.im = 0) ∧ b.re = 0 ∧ b.im = 0 := by
+  rw [su2ToSO3_eq (by norm_num)] at h
+  have h22 := congrFun (congrFun h 2) 2
+  have h00 := congrFun (congrFun h 0) 0
+  simp at h22 h00
+  unfold nrm2 at hu
+  have hb : b.re * b.re + b.im * b.im = 0 := by linarith
+  obtain ⟨hb1, hb2⟩ := sq_sum_zero hb
+  have hx : a.im * a.im = 0 := by rw [hb1, hb2] at h00 hu; linarith
+  have hx0 : a.im = 0 := mul_self_eq_zero.mp hx
+  have hw : a.re * a.re = 1 := by rw [hb1, hb2, hx0] at hu; linarith
+  exact ⟨⟨mul_self_eq_one_iff.mp hw, hx0⟩, hb1, hb2⟩
+
+/-- two unit quaternions with the same rotation differ by a sign -/
+private theorem su2_eq_or_neg (a b a' b' : Cx ℝ) (hu : nrm2 a b = 1) (hu' : nrm2 a' b' = 1)
+    (h : M3 (su2ToSO3 (1/2) a' b') = M3 (su2ToSO3 (1/2) a b)) :
+    (a' = a ∧ b' = b) ∨ (a' = -a ∧ b' = -b) := by
+  have h2 : (2 : ℝ) * (1/2) = 1 := by norm_num
+  -- W = V · U⁻¹, U⁻¹ = (ā, -b)
+  have hW : M3 (su2ToSO3 (1/2) (su2MulA a' b' a.conj (-b)) (su2MulB a' b' a.conj (-b))) = 1 := by
+    rw [su2ToSO3_mul h2, h, ← su2ToSO3_mul h2]
+    have e1 : su2MulA a b a.conj (-b) = 1 := by
+      ext <;> simp [su2MulA]
+      · unfold nrm2 at hu; linarith
+      · ring
+    have e2 : su2MulB a b a.conj (-b) = 0 := by ext <;> simp [su2MulB] <;> ring
+    rw [e1, e2]; exact su2ToSO3_one
+  have hnW : nrm2 (su2MulA a' b' a.conj (-b)) (su2MulB a' b' a.conj (-b)) = 1 := by
+    have : nrm2 (su2MulA a' b' a.conj (-b)) (su2MulB a' b' a.conj (-b)) = nrm2 a' b' * nrm2 a b := by
+      simp [nrm2, su2MulA, su2MulB]; ring
+    rw [this, hu, hu', mul_one]
+  obtain ⟨⟨hs, hi⟩, hbr, hbi⟩ := su2_kernel _ _ hnW hW
+  simp [su2MulA, su2MulB] at hs hi hbr hbi
+  unfold nrm2 at hu
+  -- with s = Re W_a = ±1: a' = s·a, b' = s·b
+  have key : ∀ s : ℝ, a'.re * a.re + a'.im * a.im + (b'.re * b.re + b'.im * b.im) = s →
+      a' = Cx.smul s a ∧ b' = Cx.smul s b := by
+    intro s hsv
+    refine ⟨?_, ?_⟩ <;> ext <;> simp
+    · linear_combination (-a'.re) * hu + a.re * hsv - a.im * hi - b.re * hbr - b.im * hbi
+    · linear_combination (-a'.im) * hu + a.im * hsv + a.re * hi + b.im * hbr - b.re * hbi
+    · linear_combination (-b'.re) * hu + b.re * hsv - b.im * hi + a.re * hbr + a.im * hbi
+    · linear_combination (-b'.im) * hu + b.im * hsv + b.re * hi - a.im * hbr + a.re * hbi
+  rcases hs with h1 | h1
+  · left
+    obtain ⟨e1, e2⟩ := key 1 (by linarith)
+    exact ⟨by rw [e1]; ext <;> simp, by rw [e2]; ext <;> simp⟩
+  · right
+    obtain ⟨e1, e2⟩ := key (-1) (by linarith)
+    exact ⟨by rw [e1]; ext <;> simp, by rw [e2]; ext <;> simp⟩
+
+private theorem so3ToAngle_beta (M : Matrix (Fin 3) (Fin 3) ℝ) (eps : ℝ) :
+    (so3ToAngle (1/2) M eps).2.1 = Real.arccos (clip1 (M 2 2)) := by
+  unfold so3ToAngle so3ToAngleHf0
+  cases h : branchOf (Trig.acos (clip1 (M 2 2))) eps <;> simp only [h] <;> rfl
+
+private theorem su2ToAngle_unfold (a b : Cx ℝ) (eps : ℝ) :
+    su2ToAngle (1/2) a b eps =
+      if ((⟨Real.cos (1/2 * ((so3ToAngle (1/2) (su2ToSO3 (1/2) a b) eps).1 + (so3ToAngle (1/2) (su2ToSO3 (1/2) a b) eps).2.2)),
+            Real.sin (1/2 * ((so3ToAngle (1/2) (su2ToSO3 (1/2) a b) eps).1 + (so3ToAngle (1/2) (su2ToSO3 (1/2) a b) eps).2.2))⟩ : Cx ℝ) * a
+          - ⟨Real.cos (1/2 * ((so3ToAngle (1/2) (su2ToSO3 (1/2) a b) eps).1 - (so3ToAngle (1/2) (su2ToSO3 (1/2) a b) eps).2.2)),
+            Real.sin (1/2 * ((so3ToAngle (1/2) (su2ToSO3 (1/2) a b) eps).1 - (so3ToAngle (1/2) (su2ToSO3 (1/2) a b) eps).2.2))⟩ * b).re < 0
+      then ((so3ToAngle (1/2) (su2ToSO3 (1/2) a b) eps).1, (so3ToAngle (1/2) (su2ToSO3 (1/2) a b) eps).2.1,
+            (so3ToAngle (1/2) (su2ToSO3 (1/2) a b) eps).2.2 + (Real.pi + Real.pi))
+      else ((so3ToAngle (1/2) (su2ToSO3 (1/2) a b) eps).1, (so3ToAngle (1/2) (su2ToSO3 (1/2) a b) eps).2.1,
+            (so3ToAngle (1/2) (su2ToSO3 (1/2) a b) eps).2.2) := by
+  have e : (su2Entries7 (1/2 : ℝ) a b).map Cx.re =
+      [su2ToSO3 (1/2) a b 0 0, su2ToSO3 (1/2) a b 1 0, su2ToSO3 (1/2) a b 0 2, su2ToSO3 (1/2) a b 1 2,
+       su2ToSO3 (1/2) a b 2 0, su2ToSO3 (1/2) a b 2 1, su2ToSO3 (1/2) a b 2 2] := rfl
+  unfold su2ToAngle
+  rw [e]
+  rfl
+
+/-- adding `2π` to `γ` flips the sign of `angle_to_su2` -/
+private theorem angleToSU2_shift (al be ga : ℝ) :
+    angleToSU2 (1/2) al be (ga + (Real.pi + Real.pi)) 0 0 = -(angleToSU2 (1/2) al be ga 0 0) ∧
+    angleToSU2 (1/2) al be (ga + (Real.pi + Real.pi)) 0 1 = -(angleToSU2 (1/2) al be ga 0 1) := by
+  have e1 : (1/2 : ℝ) * (al + (ga + (Real.pi + Real.pi))) = 1/2 * (al + ga) + Real.pi := by ring
+  have e2 : (1/2 : ℝ) * (al - (ga + (Real.pi + Real.pi))) = 1/2 * (al - ga) - Real.pi := by ring
+  constructor <;>
+  · show angleToSU2cs (Real.cos _) (Real.sin _) ⟨Real.cos _, Real.sin _⟩ ⟨Real.cos _, Real.sin _⟩ _ _ = -(angleToSU2cs (Real.cos _) (Real.sin _) ⟨Real.cos _, Real.sin _⟩ ⟨Real.cos _, Real.sin _⟩ _ _)
+    rw [e1, e2, Real.cos_add_pi, Real.sin_add_pi, Real.cos_sub_pi, Real.sin_sub_pi]
+    ext <;> simp [angleToSU2cs]
+
+/-- **SU(2) round trip, sign included**: for every `U ∈ SU(2)` outside the tolerance region the 4π-branch test of
+`su2_to_angle` (`Re(e^{i(α+γ)/2}U₀₀ − e^{i(α−γ)/2}U₀₁) < 0`, repaired in 7f0ceda) selects the branch of `γ` with
+`angle_to_su2 (su2_to_angle U) = U` exactly. Uses `so3_roundtrip`, the covering identity and `ker = {±1}`. -/
+theorem su2_roundtrip (a b : Cx ℝ) (hu : nrm2 a b = 1) (eps : ℝ) (h0 : 0 < eps) (hpi : eps < Real.pi)
+    (hthr : Real.arccos (su2ToSO3 (1/2) a b 2 2) = 0 ∨ Real.arccos (su2ToSO3 (1/2) a b 2 2) = Real.pi ∨
+      (eps ≤ Real.arccos (su2ToSO3 (1/2) a b 2 2) ∧ Real.arccos (su2ToSO3 (1/2) a b 2 2) ≤ Real.pi - eps)) :
+    M2 (su2Rebuild a b eps) = su2Mat a b := by
+  have h2 : (2 : ℝ) * (1/2) = 1 := by norm_num
+  have hO := su2ToSO3_orthogonal h2 hu
+  have hd : (M3 (su2ToSO3 (1/2) a b)).det = 1 := by rw [su2ToSO3_det h2, hu]; ring
+  have hrt := so3_roundtrip (M3 (su2ToSO3 (1/2) a b)) hO hd eps h0 hpi hthr
+  set al := (so3ToAngle (1/2) (su2ToSO3 (1/2) a b) eps).1 with hal
+  set be := (so3ToAngle (1/2) (su2ToSO3 (1/2) a b) eps).2.1 with hbe
+  set ga := (so3ToAngle (1/2) (su2ToSO3 (1/2) a b) eps).2.2 with hga
+  -- V = angle_to_su2 of the extracted angles has the same rotation as U
+  have hcov := su2ToSO3_angleToSU2_real al be ga
+  have hV : M3 (su2ToSO3 (1/2) (angleToSU2 (1/2) al be ga 0 0) (angleToSU2 (1/2) al be ga 0 1)) = M3 (su2ToSO3 (1/2) a b) := by
+    rw [hcov]; exact hrt
+  have hcs := cos_mul_self_add
+  have hnV : nrm2 (angleToSU2 (1/2) al be ga 0 0) (angleToSU2 (1/2) al be ga 0 1) = 1 :=
+    angleToSU2cs_nrm2 (cb := Real.cos (1/2 * be)) (sb := Real.sin (1/2 * be))
+      (p := ⟨Real.cos (1/2 * (al + ga)), Real.sin (1/2 * (al + ga))⟩) (m := ⟨Real.cos (1/2 * (al - ga)), Real.sin (1/2 * (al - ga))⟩)
+      (hcs _) (hcs _) (hcs _)
+  -- β ∈ [0, π], so cos(β/2) + sin(β/2) > 0
+  have hbeta : be = Real.arccos (clip1 (su2ToSO3 (1/2) a b 2 2)) := so3ToAngle_beta _ eps
+  have hb0 : 0 ≤ be := by rw [hbeta]; exact Real.arccos_nonneg _
+  have hbp : be ≤ Real.pi := by rw [hbeta]; exact Real.arccos_le_pi _
+  have hc0 : 0 ≤ Real.cos (1/2 * be) := Real.cos_nonneg_of_neg_pi_div_two_le_of_le (by linarith [Real.pi_pos]) (by linarith)
+  have hs0 : 0 ≤ Real.sin (1/2 * be) := Real.sin_nonneg_of_nonneg_of_le_pi (by linarith) (by linarith [Real.pi_pos])
+  have hpos : 0 < Real.cos (1/2 * be) + Real.sin (1/2 * be) := by
+    have := hcs (1/2 * be); nlinarith
+  -- value of the branch test on V
+  have htest : ((⟨Real.cos (1/2 * (al + ga)), Real.sin (1/2 * (al + ga))⟩ : Cx ℝ) * angleToSU2 (1/2) al be ga 0 0
+      - ⟨Real.cos (1/2 * (al - ga)), Real.sin (1/2 * (al - ga))⟩ * angleToSU2 (1/2) al be ga 0 1).re
+      = Real.cos (1/2 * be) + Real.sin (1/2 * be) :=
+    branch_test_value (cb := Real.cos (1/2 * be)) (sb := Real.sin (1/2 * be))
+      (p := ⟨Real.cos (1/2 * (al + ga)), Real.sin (1/2 * (al + ga))⟩) (m := ⟨Real.cos (1/2 * (al - ga)), Real.sin (1/2 * (al - ga))⟩)
+      (hcs _) (hcs _)
+  have hsu2 : ∀ x y z : ℝ, M2 (angleToSU2 (1/2) x y z) = su2Mat (angleToSU2 (1/2) x y z 0 0) (angleToSU2 (1/2) x y z 0 1) := by
+    intro x y z
+    apply mat2_ext <;> simp [su2Mat, angleToSU2, angleToSU2cs] <;> ext <;> simp
+  unfold su2Rebuild
+  rw [su2ToAngle_unfold]
+  rcases su2_eq_or_neg a b _ _ hu hnV hV with ⟨ea, eb⟩ | ⟨ea, eb⟩
+  · -- V = U: the test is positive, γ unchanged
+    have : ¬ ((⟨Real.cos (1/2 * (al + ga)), Real.sin (1/2 * (al + ga))⟩ : Cx ℝ) * a
+        - ⟨Real.cos (1/2 * (al - ga)), Real.sin (1/2 * (al - ga))⟩ * b).re < 0 := by
+      rw [← ea, ← eb, htest]; exact not_lt.mpr hpos.le
+    rw [if_neg this, hsu2, ea, eb]
+  · -- V = -U: the test is negative, γ + 2π flips the sign
+    have hneg : ((⟨Real.cos (1/2 * (al + ga)), Real.sin (1/2 * (al + ga))⟩ : Cx ℝ) * a
+        - ⟨Real.cos (1/2 * (al - ga)), Real.sin (1/2 * (al - ga))⟩ * b).re < 0 := by
+      have ea' : a = -(angleToSU2 (1/2) al be ga 0 0) := by rw [ea]; ext <;> simp
+      have eb' : b = -(angleToSU2 (1/2) al be ga 0 1) := by rw [eb]; ext <;> simp
+      have : ((⟨Real.cos (1/2 * (al + ga)), Real.sin (1/2 * (al + ga))⟩ : Cx ℝ) * a
+          - ⟨Real.cos (1/2 * (al - ga)), Real.sin (1/2 * (al - ga))⟩ * b).re
+          = -(Real.cos (1/2 * be) + Real.sin (1/2 * be)) := by
+        rw [← htest, ea', eb']; simp; ring
+      rw [this]; linarith
+    rw [if_pos hneg, hsu2]
+    obtain ⟨s1, s2⟩ := angleToSU2_shift al be ga
+    rw [s1, s2, ea, eb]
+    congr 1 <;> ext <;> simp
+
+/-- `Su2Roundtrip.Statement` holds -/
+theorem su2_roundtrip_statement : Su2Roundtrip.Statement :=
+  fun a b hu eps h0 hpi hthr => su2_roundtrip a b hu eps h0 hpi hthr
+
+/-- non-vacuity at the repaired gimbal-lock input `U = [[0,1],[-1,0]]` (`β = π`, `U₀₀ = 0`): the hypotheses hold -/
+example : nrm2 (0 : Cx ℝ) 1 = 1 ∧ Real.arccos (su2ToSO3 (1/2) (0 : Cx ℝ) 1 2 2) = Real.pi := by
+  refine ⟨by simp [nrm2], ?_⟩
+  have : su2ToSO3 (1/2 : ℝ) (0 : Cx ℝ) 1 2 2 = -1 := by simp [su2ToSO3, su2ToSO3cx]
+  rw [this]; exact Real.arccos_neg_one
+
 end real
 
 /-! ## Part C — angular momentum operators, every `j2`
@@ -538,7 +717,55 @@ theorem su2_irrep_hom_partial (sq : ℕ → F) (h1 : sq 1 = 1) (h4 : sq 4 = 2) (
   · exact s2
   · exact s3
 
+/-- **`Sym^{j2}` of a unitary matrix is unitary for `j2 = 1, 2, 3`**: `U†U = 1` (four entry equations) implies
+`Sym(U)† Sym(U) = 1`. -/
+theorem sym_unitary_partial (sq : ℕ → F) (h1 : sq 1 = 1) (h4 : sq 4 = 2) (h36 : sq 36 = 6) (h12 : sq 12 = 2 * sq 3)
+    (h2 : sq 2 * sq 2 = 2) (h3 : sq 3 * sq 3 = 3) (a b c d : Cx F)
+    (u00 : a.conj * a + c.conj * c = 1) (u01 : a.conj * b + c.conj * d = 0)
+    (u10 : b.conj * a + d.conj * c = 0) (u11 : b.conj * b + d.conj * d = 1) :
+    conjTn (symM sq 1 a b c d) * symM sq 1 a b c d = 1 ∧ conjTn (symM sq 2 a b c d) * symM sq 2 a b c d = 1
+      ∧ conjTn (symM sq 3 a b c d) * symM sq 3 a b c d = 1 := by
+  refine ⟨?_, ?_, ?_⟩
+  · rw [symM_conjT_one sq h1, ← symM_mul_one sq h1, u00, u01, u10, u11, symM_id_one sq h1]
+  · rw [symM_conjT_two sq h1 h4, ← symM_mul_two sq h1 h4 h2, u00, u01, u10, u11, symM_id_two sq h1 h4]
+  · rw [symM_conjT_three sq h4 h36 h12, ← symM_mul_three sq h4 h36 h12 h3, u00, u01, u10, u11, symM_id_three sq h4 h36 h12]
+
+/-- **the spin-j matrices are unitary for `j2 = 1, 2, 3`** (`D(U)†D(U) = 1` for `U = angle_to_su2 α β γ`) -/
+theorem su2_irrep_unitary_partial (sq : ℕ → F) (h1 : sq 1 = 1) (h4 : sq 4 = 2) (h36 : sq 36 = 6) (h12 : sq 12 = 2 * sq 3)
+    (h2 : sq 2 * sq 2 = 2) (h3 : sq 3 * sq 3 = 3) (cb sb : F) (p m : Cx F)
+    (hb : cb * cb + sb * sb = 1) (hp : p * p.conj = 1) (hm : m * m.conj = 1)
+    (j2 : ℕ) (hj : j2 = 1 ∨ j2 = 2 ∨ j2 = 3) :
+    conjTn (irrepM sq j2 cb sb p m) * irrepM sq j2 cb sb p m = 1 := by
+  rw [irrep_eq_sym sq j2 cb sb p m hp hm]
+  have hpr : p.re * p.re + p.im * p.im = 1 := by have := congrArg Cx.re hp; simpa using this
+  have hmr : m.re * m.re + m.im * m.im = 1 := by have := congrArg Cx.re hm; simpa using this
+  have u00 : (angleToSU2cs cb sb p m 0 0).conj * angleToSU2cs cb sb p m 0 0 + (angleToSU2cs cb sb p m 1 0).conj * angleToSU2cs cb sb p m 1 0 = 1 := by
+    ext <;> simp [angleToSU2cs]
+    · linear_combination (cb * cb) * hpr + (sb * sb) * hmr + hb
+    · ring
+  have u11 : (angleToSU2cs cb sb p m 0 1).conj * angleToSU2cs cb sb p m 0 1 + (angleToSU2cs cb sb p m 1 1).conj * angleToSU2cs cb sb p m 1 1 = 1 := by
+    ext <;> simp [angleToSU2cs]
+    · linear_combination (cb * cb) * hpr + (sb * sb) * hmr + hb
+    · ring
+  have u01 : (angleToSU2cs cb sb p m 0 0).conj * angleToSU2cs cb sb p m 0 1 + (angleToSU2cs cb sb p m 1 0).conj * angleToSU2cs cb sb p m 1 1 = 0 := by
+    ext <;> simp [angleToSU2cs] <;> ring
+  have u10 : (angleToSU2cs cb sb p m 0 1).conj * angleToSU2cs cb sb p m 0 0 + (angleToSU2cs cb sb p m 1 1).conj * angleToSU2cs cb sb p m 1 0 = 0 := by
+    ext <;> simp [angleToSU2cs] <;> ring
+  obtain ⟨s1, s2, s3⟩ := sym_unitary_partial sq h1 h4 h36 h12 h2 h3 _ _ _ _ u00 u01 u10 u11
+  rcases hj with rfl | rfl | rfl
+  · exact s1
+  · exact s2
+  · exact s3
+
 end irrep
+
+/-- **bridge for the driver's `irrep` op**: `get_su2_irrep` with its literal phases `exp(-iMα)`, `exp(-iNγ)` (`su2IrrepG`, run at
+`Float`) equals the half-angle form `irrepCS` of the `Sym^{j2}` theorems, for every `j2` (de Moivre). -/
+theorem su2_irrep_literal_eq (sq : ℕ → ℝ) (j2 : ℕ) (al be ga : ℝ) (i k : ℕ) (hi : i ≤ j2) (hk : k ≤ j2) :
+    su2IrrepG sq (fun n : ℕ => (n : ℝ)) (1/2) j2 al be ga i k
+      = irrepCS sq (fun n : ℕ => (n : ℝ)) j2 (Real.cos (1/2 * be)) (Real.sin (1/2 * be))
+          (cis (1/2 * (al + ga))) (cis (1/2 * (al - ga))) i k :=
+  su2IrrepG_eq_irrepCS sq j2 al be ga i k hi hk
 
 /-- the hypotheses on `sq` hold for the real square root -/
 example : Real.sqrt (1 : ℕ) = 1 ∧ Real.sqrt (4 : ℕ) = 2 ∧ Real.sqrt (36 : ℕ) = 6 ∧ Real.sqrt (12 : ℕ) = 2 * Real.sqrt (3 : ℕ)
